@@ -126,6 +126,15 @@ def run_case(ctx, rng, idx):
         undirected(ctx, rng, idx, hb, [tuple(e) for e in hb.get_edges()], phase=1)
         return
     h, edges = gen_h(rng)
+    if rng.random() < 0.12:
+        # an input with a past: a singleton whose node was removed with keep_edges=True (kept as the empty hyperedge, or dropped -
+        # DESIGN 2.3); whatever the input lists now is what must come back, size by size
+        spare = 10**6 + 3
+        h.add_edge((spare,))
+        h.remove_node(spare, keep_edges=True)
+        edges = [tuple(e) for e in h.get_edges()]
+        if () in edges:
+            ctx.event("input-contains-the-empty-hyperedge")
     undirected(ctx, rng, idx, h, edges, phase=0)
 
 
@@ -320,6 +329,16 @@ def directed_case(ctx, rng, idx):
         ind = Counter(n for s, t in out for n in set(s))
         outd = Counter(n for s, t in out for n in set(t))
         ctx.check("C13:output", all(len(set(s)) == len(s) and len(set(t)) == len(t) for s, t in out), "C13:directed:repeated-node-in-a-side-of-an-output-hyperedge", lambda: wit(out))
+        # the degrees of the returned object as ITS OWN incidence queries report them (what a user of the sample measures) are the
+        # degrees of its listing
+        try:
+            q_src = Counter({n: len(r.get_source_edges(n)) for n in r.get_nodes()})
+            q_tgt = Counter({n: len(r.get_target_edges(n)) for n in r.get_nodes()})
+            ok_q = +q_src == +ind and +q_tgt == +outd
+        except Exception as e:
+            ok_q = False
+            q_src = q_tgt = repr(e)
+        ctx.check("C13:output", ok_q, "C13:directed:degrees-reported-by-the-output's-incidence-queries-differ-from-its-listing", lambda: wit({"out": out, "by_query": (repr(q_src)[:200], repr(q_tgt)[:200])}))
         worse = [n for n in ind if ind[n] > ind0.get(n, 0)] + [n for n in outd if outd[n] > outd0.get(n, 0)]
         ctx.check("C13:output", not worse, "C13:directed:in-or-out-degree-increased", lambda: wit({"out": out, "offending": worse[:5], "diag": chain["bad"]}))
         if len(out) == len(edges):
